@@ -170,6 +170,22 @@ CLAIMED.update({
         technique="TLA+ model checking (TLC) + transition replay on the protocol class + real-socket traces validated by TLC"),
 })
 
+CLAIMED.update({
+    "C20": dict(
+        text="AioCache.tla models AsyncLRUCacheWrapper.__call__ handle-exactly on the asyncio kernel (ordered dict of "
+             "entries / placeholders, one Lock per placeholder, counters, ttl on a discrete clock; the pinned defects "
+             "included); all nondeterminism belongs to the environment (calls, gate releases, failures, scope and native "
+             "cancellation, clock ticks); the observer P_Cache (RightValue, SingleFlight, NoCrossKeyBlocking, "
+             "NoInternalError, AtMostMaxsize measured with weak references, LRUEviction, NoStaleAfterEvict/Ttl) is ghost "
+             "state; every choice edge of the exhaustive configurations and simulated behaviours are replayed on the "
+             "real lru_cache on the controlled loop, plus seeded random long histories; traces validated by T_Cache.",
+        design_ref="DESIGN.md section 3 (C20), section 7 (F3a-c, F15)",
+        note="four genuine defects of the pinned cache are known findings (classified from the log alone); inside "
+             "histories tainted by them (concurrency at a possibly full bounded cache) new single-flight / retention / "
+             "order bugs would be reported as the known finding",
+        technique="TLA+ model checking (TLC) + spec-to-code replay + TLC trace validation"),
+})
+
 NOT_YET = "check not built yet in this round (planned, see DESIGN.md section 3)"
 
 def main():
